@@ -204,6 +204,32 @@ fn relation_cases(ctx: &mut Ctx, w: &World, idx: usize) {
         let mut d = match f.atoms(ctx, w, &c) { Some(d) => d, None => return };
         if rel == 0 {
             let _ = initialize_check(ctx, w, &a, &d, Some(true), "assembled-valid");
+            // same-role first-message elements of the two sub-proofs moved by +D / -D before the challenge is derived,
+            // responses honest for that challenge (an unweighted aggregate of the two Schnorr equations is unchanged)
+            for role in 0..2 {
+                let dl = nonzero(&mut ctx.prng);
+                let tweak = |d: &mut EstD| { if role == 0 { d.st.c += dl; d.cl.c -= dl; } else { d.st.t += dl; d.cl.t -= dl; } };
+                let mut dr = match f.atoms(ctx, w, &Scalar::zero()) { Some(d) => d, None => return };
+                tweak(&mut dr);
+                let c2 = match merchant_challenge(ctx, w, &a, &dr) { Some(c) => c, None => return };
+                let mut d2 = match f.atoms(ctx, w, &c2) { Some(d) => d, None => return };
+                tweak(&mut d2);
+                let _ = initialize_check(ctx, w, &a, &d2, Some(false), "compensating-pair-of-sub-proof-elements");
+            }
+            // responses are not hashed, so a prover picks them knowing the challenge: blinding-factor responses of the
+            // two sub-proofs moved by (w·D, -D) and (D, -w·D) for weights w the prover can compute (1, c, c², 1/c) — each
+            // Schnorr equation is then wrong on its own while an aggregate weighted by w is unchanged
+            {
+                let cinv = c.invert().unwrap_or(Scalar::one());
+                for w8 in [Scalar::one(), c, c * c, cinv] {
+                    for dir in 0..2 {
+                        let mut d2 = d.clone();
+                        let dl = nonzero(&mut ctx.prng);
+                        if dir == 0 { d2.st.zbf += w8 * dl; d2.cl.zbf -= dl; } else { d2.st.zbf += dl; d2.cl.zbf -= w8 * dl; }
+                        let _ = initialize_check(ctx, w, &a, &d2, Some(false), "challenge-weighted-compensating-responses");
+                    }
+                }
+            }
             // and with one Schnorr equation broken
             d.st.zbf += Scalar::one();
             let _ = initialize_check(ctx, w, &a, &d, Some(false), "violates-state-schnorr");
